@@ -69,10 +69,7 @@ theorem PDoc.get_eq (o : Opts) (self : Node) (p : PDoc) (key : Bytes) :
   | none => simp [PDoc.get, PDoc.toNode, conGet]
   | some ob =>
     simp only [PDoc.get, PDoc.toNode, conGet]
-    by_cases hk : key = []
-    · simp [hk]
-    · simp only [hk, if_false]
-      cases lookupN key ob <;> rfl
+    cases lookupN key ob <;> rfl
 
 /-- two nil-map documents that differ only in their stale keys cannot be told apart by any
 method that mentions `keys` -/
